@@ -3,6 +3,7 @@ package rscp
 import (
 	"encoding/json"
 	"fmt"
+	"strconv"
 )
 
 // TypeFlagBit is the position of the bit indicating if the tag is a request or response
@@ -39,6 +40,13 @@ func (t *Tag) UnmarshalJSON(data []byte) error {
 	}
 
 	var err error
-	*t, err = TagString(s)
-	return err
+	if *t, err = TagString(s); err != nil {
+		// unknown tags are marshaled as their number in a string
+		var i uint64
+		if i, err = strconv.ParseUint(s, 10, 32); err != nil {
+			return fmt.Errorf("%s does not belong to Tag values", s)
+		}
+		*t = Tag(i)
+	}
+	return nil
 }
